@@ -55,6 +55,25 @@ check("C07", "TLC model checking of FcMeaning on Eval.tla + replay (real collect
       "format_constraint_evaluation of it must give the reading's value under every truth assignment; recorded callbacks on deep random "
       "expressions are validated by TLC with FC expressions compared by meaning.", EVAL_NOTE, "DESIGN.md 3.4, 5/C07")
 
+check("C08", "TLC model checking of FcEval.tla (machine = Boolean value; message iff unfulfilled) + replay of every enumerated program at both "
+      "entry points + TLC trace validation of recorded transformer callbacks",
+      "TLC proves for every FC-only program in the bound (<=3 leaves replayed, <=4 checked) under every truth assignment that the "
+      "callback-level machine computes the Boolean value and carries a message iff unfulfilled, given the precondition on leaves; every "
+      "program is replayed through format_constraint_evaluation (two kinds of evaluators, including the default-message path) and "
+      "evaluate_format_constraint_tree, with fully bracketed and precedence-reliant renderings; None and '' must be fulfilled; recorded "
+      "callbacks on random expressions <=20 leaves are validated by TLC.",
+      "Trusted: TLC, renderer, projection of messages to presence. Precondition read as in DESIGN 6.4.", "DESIGN.md 3.5, 5/C08")
+
+check("C01", "TLC model checking of CondParser.tla (operator-precedence machine = declarative split-at-lowest-operator reading) + replay of every "
+      "accepted token sequence in several concrete spellings + TLC trace validation of real parses of long random expressions",
+      "TLC proves for every viable token prefix in the bound (<=8 replayed / <=10 checked quick; <=10 / <=12 thorough) that the shunting-yard "
+      "machine accepts exactly the well-formed sequences, groups them as the documented reading Split does, never drops or reorders "
+      "operands, only nests lower-ranking operators inside brackets, and is insensitive to redundant brackets; every accepted sequence is "
+      "rendered plainly and in seeded variants (operand kinds, mixed operator spellings, whitespace, redundant brackets) and the real "
+      "parser's tree in n-ary normal form must equal the spec's; real parses of random expressions up to 25 operands are validated by TLC.",
+      "Trusted: TLC; the renderer and the n-ary normalisation (same-operator children merged unless bracketed). Lark/Earley itself is only "
+      "observed through conformance.", "DESIGN.md 3.2, 5/C01")
+
 NOT_BUILT = "check under construction in this session (specification module planned in DESIGN.md section 3); not claimed yet"
 
 
